@@ -437,7 +437,9 @@ def tlc_interleavings(ctx, progs, name):
 PAIRS_QUICK = [(("I", 0, 0), ("I", 1, 1)), (("C", 0, 0), ("C", 1, 1)), (("C", 2, 2), ("C", 3, 3)), (("I", 2, 2), ("C", 0, 3)),
                (("C", 4, 1), ("C", 4, 2)), (("I", 4, 1), ("I", 4, 2)), (("C", 3, 4), ("I", 4, 5)),
                (("C", 5, 1), ("C", 5, 2)), (("I", 5, 1), ("I", 5, 2)), (("C", 5, 3), ("C", 5, 4)), (("I", 6, 1), ("I", 6, 2)), (("C", 6, 1), ("I", 6, 2)),
-               (("C", 7, 1), ("C", 7, 2)), (("I", 7, 1), ("C", 7, 2))]
+               (("C", 7, 1), ("C", 7, 2)), (("I", 7, 1), ("C", 7, 2)),
+               # the same kind of expression in both threads (textually equal macro bodies, different constants and bindings)
+               (("I", 0, 1), ("I", 0, 2)), (("I", 7, 1), ("I", 7, 2)), (("I", 2, 1), ("I", 2, 2)), (("C", 2, 1), ("C", 2, 2))]
 
 
 def run(ctx: Ctx) -> int:
